@@ -89,6 +89,10 @@ def check(run):
         for _ in range(n // 3):
             k = rnd.randint(1, 6)
             runs.append({"tag": "wiring", "argv": [codes(x) for x in [e, "sort"] + [rnd.choice(acc[e]) for _ in range(k)]]})
+        # sort with blank-padded spellings (tab, CR, LF): what String() returns for them has to come out quoted exactly
+        for _ in range(3 if quick else 12):
+            items = [rnd.choice(["\t%s", "%s\n", " %s ", "%s\r\n", "%s"]) % rnd.choice(acc[e]) for _ in range(rnd.randint(2, 4))]
+            runs.append({"tag": "wiring", "argv": [codes(x) for x in [e, "sort"] + items]})
     for sc in versgen.SCHEMES:
         for _ in range(6 if quick else 40):
             a, b = sorted(rnd.sample(range(17), 2))
